@@ -17,9 +17,10 @@ PROP = {
         "header": _HEADER,
         "case_type": "Ledger.case",
         "checks": {"corr": "Ledger.check_case", "mon_index": "mon_index", "mon_never_early": "mon_never_early",
-                   "mon_release": "mon_release", "mon_aggregates": "mon_aggregates", "mon_accept": "mon_accept"},
+                   "mon_release": "mon_release", "mon_aggregates": "mon_aggregates", "mon_accept": "mon_accept",
+                   "mon_pending_slash": "mon_pending_slash"},
         "kinds": {"corr": "corr", "mon_index": "monitor", "mon_never_early": "monitor", "mon_release": "monitor",
-                  "mon_aggregates": "monitor", "mon_accept": "monitor"},
+                  "mon_aggregates": "monitor", "mon_accept": "monitor", "mon_pending_slash": "monitor"},
         "n_quick": 160,
         "n_thorough": 2000,
     }, {
@@ -41,7 +42,7 @@ PROP = {
              "event height around now, hold increment/decrement on live record keys, native-restaking balance adjustments (UpdateNSTBalance: decreases sized to end in the withdrawable "
              "balance / inside the pending undelegations / in the delegated shares; increases capped at earlier decreases), 1..11 delegation EndBlocks; start height from "
              "{1,2,3,9,15,16,17,255,256,4095,10^6}; nonces and tx hashes unique per case except in the directed tagged scenarios (which come first and "
-             "reproduce the known findings: 3 index collisions, deep-slash acceptance; plus the regression scenario of the repaired opt-out-before-activation defect and an NST scenario); the prefix-scan "
+             "reproduce the known findings: 3 index collisions; plus the regression scenarios of the repaired opt-out-before-activation and deep-slash-acceptance defects, an NST scenario and a native-token scenario); the prefix-scan "
              "scenarios (record completing at 0x13 loaded at height 1, ...) are untagged and "
              "must pass. distinct = sha1 of the case; non-trivial = at least two different op kinds changed the stores"),
     "explanation": ("Coq theorems about the executable key-string-level model of the undelegation life cycle (Ledger/Ledger.v) for ALL histories: "
@@ -60,7 +61,7 @@ PROP = {
         "the slash proportion newSlashProportion (USD-value computation, CheckSlashParameter) is an input of the Slash op read back from the stored "
         "SlashExecutionInfo; it belongs to C04/C05",
         "entry points run in a cache context committed on success only (message-server mode); precompile partial-write mode belongs to C09",
-        "not modelled: native-token (bank escrow) branch, NST deposits, staker-operator association (stakers in the generated histories have no associated operator), "
+        "not modelled: NST deposits, staker-operator association (stakers in the generated histories have no associated operator), "
         "operator lifecycle beyond {plain, active validator}; UpdateNSTBalance is modelled and correspondence-checked but outside the theorems (wf_op)",
     ],
     "assumptions": [
